@@ -1,5 +1,5 @@
-import Restful.Lemmas.TieImp
-import Restful.Model.Detect
+import Restful.Lemmas.TieImpPath
+import Restful.Lemmas.TieImpUntok
 /-
 Tie of `defaultPathProcessor.ExtractParameters` (path_processor.go:22, translated in Gen/Imp.lean)
 to the model `Params.extract`.  Recipe (see /root/agents/T4/NOTES.md):
@@ -14,6 +14,7 @@ namespace Restful
 namespace TieImp
 namespace T4
 open Imp
+set_option linter.unusedSimpArgs false
 
 /-! ### bridging facts: Prelude operations vs `Str` -/
 
@@ -90,21 +91,8 @@ theorem untokenize_loop (parts : List Str)
       simp [h1, untokenize, Str.join, List.intercalate]
 
 theorem untokenizePath_eq (X : ImpGen.Ext) (k : Nat) (parts : List Str) :
-    ImpGen.untokenizePath X (k:Int) parts = some (untokenize (parts.drop k)) := by
-  unfold ImpGen.untokenizePath
-  by_cases hk : k ≤ parts.length
-  · simp only [Option.bind_eq_bind, Option.pure_def]
-    rw [untokenize_loop parts _ _ (parts.length - k) k [] (by omega)]
-    · simp
-    · intro j b hj
-      simp only [at?_nat, List.getElem?_eq_getElem hj, Option.bind_some, len_eq]
-      by_cases h1 : j + 1 < parts.length
-      · have : ((j:Int) < (parts.length : Int) - 1) := by omega
-        simp [h1, this]
-      · have : ¬ ((j:Int) < (parts.length : Int) - 1) := by omega
-        simp [h1, this]
-  · rw [len_eq, range_empty _ _ (by omega)]
-    simp [untokenize, Str.join, List.drop_of_length_le (by omega : parts.length ≤ k), List.intercalate]
+    ImpGen.untokenizePath X (k:Int) parts = some (untokenize (parts.drop k)) :=
+  T2.untokenize_path X k parts
 
 
 /-! ### `ExtractParameters` -/
@@ -136,12 +124,8 @@ theorem extract_loop (hasVerb : Bool) (urlParts : List Str)
     | done b => rfl
     | yield b => exact ih (k+1) b
 
-theorem tokenizePath_eq (rx join) (p : Str) : ImpGen.tokenizePath (extOf rx join) p = some (tokenize p) := by
-  unfold ImpGen.tokenizePath tokenize
-  by_cases h : p = ['/']
-  · simp [h]
-  · have h' : ¬ (['/'] = p) := fun e => h e.symm
-    simp [h, h', extOf, extOfQ]
+theorem tokenizePath_eq (rx join) (p : Str) : ImpGen.tokenizePath (extOf rx join) p = some (tokenize p) :=
+  T2.tokenize_path (extOf rx join) rfl p
 
 theorem lit_brace : "{".toList = ['{'] := rfl
 theorem lit_colon : ":".toList = [':'] := rfl
@@ -164,22 +148,24 @@ theorem extract_parameters (rx : Str → Str → Bool × GoErr) (join : Str → 
   · intro k key keys ps
     simp only [extOf, extOfQ, untokenizePath_eq, mapSet_eq]
     rw [← List.tail_drop, Params.extractWalk]
-    -- the value read from the URL is the head of `urlParts[k:]` (or "" past the end)
-    have hv : (decide ((k:Int) ≥ len (tokenize urlPath)) = false
+    -- the value read from the URL is the head of `urlParts[k:]` (or "" past the end); the comparison of the
+    -- index with `len urlParts` is decided whichever way round the code writes it
+    have hv : ((((k:Int) < len (tokenize urlPath)) = True ∧ (len (tokenize urlPath) ≤ (k:Int)) = False)
           ∧ at? (tokenize urlPath) (k:Int) = some ((List.drop k (tokenize urlPath)).headD []))
-        ∨ (decide ((k:Int) ≥ len (tokenize urlPath)) = true
+        ∨ ((((k:Int) < len (tokenize urlPath)) = False ∧ (len (tokenize urlPath) ≤ (k:Int)) = True)
           ∧ "".toList = (List.drop k (tokenize urlPath)).headD []) := by
       by_cases hk : k < (tokenize urlPath).length
-      · refine Or.inl ⟨decide_eq_false (by rw [len_eq]; omega), ?_⟩
+      · refine Or.inl ⟨⟨eq_true (by rw [len_eq]; omega), eq_false (by rw [len_eq]; omega)⟩, ?_⟩
         rw [at?_nat, List.getElem?_eq_getElem hk, List.drop_eq_getElem_cons hk]; rfl
-      · refine Or.inr ⟨decide_eq_true (by rw [len_eq]; omega), ?_⟩
+      · refine Or.inr ⟨⟨eq_false (by rw [len_eq]; omega), eq_true (by rw [len_eq]; omega)⟩, ?_⟩
         rw [List.drop_of_length_le (by omega)]; rfl
-    rcases hv with ⟨h1, h2⟩ | ⟨h1, h2⟩
+    rcases hv with ⟨⟨h1, h1'⟩, h2⟩ | ⟨⟨h1, h1'⟩, h2⟩
     all_goals
-      simp only [h1, h2, Option.bind_some, Bool.false_eq_true, ↓reduceIte]
+      simp only [ge_iff_le, gt_iff_lt, Int.not_lt, Int.not_le, h1, h1', h2, decide_true, decide_false,
+        Option.bind_some, Bool.false_eq_true, ↓reduceIte]
       generalize List.drop k (tokenize urlPath) = url
       generalize url.headD [] = value
-      clear h1 h2
+      clear h1 h1' h2
       -- the custom verb is cut from both the key and the value
       obtain ⟨key', hkey'⟩ : ∃ key', key' = (if (r.hasCustomVerb && hasCustomVerb key) = true then removeCustomVerb key else key) := ⟨_, rfl⟩
       obtain ⟨value', hvalue'⟩ : ∃ value', value' = (if (r.hasCustomVerb && hasCustomVerb key) = true then removeCustomVerb value else value) := ⟨_, rfl⟩
@@ -189,7 +175,7 @@ theorem extract_parameters (rx : Str → Str → Bool × GoErr) (join : Str → 
         simp only [hverb, Bool.false_eq_true, ↓reduceIte] at hkey' hvalue' ⊢
         simp only [← hkey', ← hvalue']
         clear hkey' hvalue' hverb
-        simp only [lit_brace, lit_colon, lit_close, lit_star, index_char, slice_eq, len_eq]
+        simp only [lit_brace, lit_colon, lit_close, lit_star, T2.containsSub_single, index_char, slice_eq, len_eq]
         cases h1 : Str.index '{' key' with
         | none => simp
         | some a =>
